@@ -27,6 +27,37 @@ return f(a)`,
 	`param a; r := callback(func(x) { return 10 / (x - 1) }, a); return r`,
 	// 5: caught error formatted inside the script, module imported inside a callback
 	`param a; try { return import("src2").div(a) } catch e { return string(e) + callback(func(x) { return import("src1").get() }, a) }`,
+	// 6: throw statements in functions without free variables (shared constants), caught and formatted with the trace
+	`param a
+f := func(x) {
+	if x > 1 { throw "big:" + string(x) }
+	if x < 0 { throw error("neg") }
+	return x
+}
+try { return f(a) } catch e { return sprintf("%+v|%v", e, e) }`,
+	// 7: uncaught throws at different sites of main, of a function constant and of a module function
+	`param a
+m := import("src3")
+if a == 1 { throw "one" }
+g := func(x) {
+	throw sprintf("g%d", x)
+}
+if a == 2 { g(a) }
+if a == 3 {
+	try { g(a) } finally { m.note(a) }
+}
+return m.thrower(a)`,
+	// 8: iterators and builtins over constants, in-place sort, bytes mutation, slices
+	`param a; s := 0; for k, v in {x: 1, y: 2} { s += v }; for c in "héllo" { s += int(c) }; arr := [3, 1, 2]; sort(arr); b := bytes("ab"); b[0] = a & 255; return [s, arr, b, sortReverse([a, 1]), repeat("ab", 2), [1, 2, 3][:2], "abc"[1:], copy([1, [2]])]`,
+	// 9: tail calls, spread, destructuring, variadic packing, const functions
+	`param a
+var f
+f = func(n, acc) { return n <= 0 ? acc : f(n - 1, acc + n) }
+x, y := [a, 2]
+g := func(...v) { v[0] = 9; return v }
+const h = func(z) { return z + 1 }
+lst := [x, y]
+return [f(5, 0), g(...lst), lst, h(y), globals() == undefined]`,
 }
 
 func verifC08Modules() *ModuleMap {
@@ -36,6 +67,11 @@ func verifC08Modules() *ModuleMap {
 	return 100 / x
 }
 return {div: func(x) { return helper(x) }}`))
+	mm.AddSourceModule("src3", []byte(`notes := []
+return {thrower: func(x) {
+	if x > 5 { throw "mod:" + string(x) }
+	return [x, notes]
+}, note: func(x) { notes = append(notes, x) }}`))
 	mm.AddBuiltinModule("cfg", map[string]Object{
 		"limits": Map{"max": Int(10)},
 		"list":   Array{Int(1), Int(2)},
